@@ -86,6 +86,18 @@ def expand(text, macros, depth=0):
 
 # ---------------------------------------------------------------- generator
 
+def deep_arg(rng):
+    """an argument with 1..4 levels of nested parentheses (what the argument pattern of cpp.rs is written
+    for), a comma at a random level below the first"""
+    d = rng.randrange(1, 5)
+    comma_at = rng.randrange(1, d + 1) if rng.random() < 0.6 else 0
+    s = rng.choice(['1', 'x', '4+5'])
+    for lvl in range(d, 0, -1):
+        inner = s + (',' + rng.choice(['2', 'y']) if lvl == comma_at else '')
+        s = rng.choice(['', 'g', 't', 'row']) + '(' + inner + ')' + rng.choice(['', '+1', ''])
+    return s
+
+
 def gen_macro_case(rng, cid, nmac):
     """-> (case, expected output or None when outside the decided class)"""
     names = []
@@ -133,7 +145,7 @@ def gen_macro_case(rng, cid, nmac):
         m = macros.get(n)
         k = rng.random()
         if m and m[0] == 'fun':
-            args = [rng.choice(['1', 'x', 'p+1', '(1,2)', 'f(3)', '((4))', rng.choice(names)]) for _ in m[1]]
+            args = [rng.choice(['1', 'x', 'p+1', '(1,2)', 'f(3)', '((4))', rng.choice(names), deep_arg(rng), deep_arg(rng)]) for _ in m[1]]
             use = rng.choice(['y = %s(%s);', 'z(%s(%s))', 't%s(%s)', '%s (%s)']) % (n, ','.join(args))
         else:
             use = rng.choice(['a = %s;', 'b[%s]', 'x%s', '%sx', '%s_1', '"%s"', '(%s)', '%s+%s' % (n, '%s'), '-%s', 'u.%s', "'%s'"]) % n
